@@ -19,7 +19,7 @@ def import_off(path : str):
         3 vm_1 vm_2 vm_3
         /////////////////
 
-        if surfacic, 3 is given at beginning of each simplex line (triangle), otherwise 4 (tetrahedron)
+        each face line starts with its number of vertices (3 for a triangle, 4 for a quad, ...)
     Parameters:
         path (str): the input file path
     """
@@ -57,11 +57,11 @@ def parse_off_data(data):
         elif nvi==2:
             a,b = simplex[1], simplex[2]
             output.edges.append((min(a,b), max(a,b)))
-        elif nvi==4:
-            cell = [int(u) for u in simplex[1:nvi+1]]
-            output.cells.append(cell)
-            output.cell_corners += [(x,i_c) for x in cell]
-            i_c += 1
+        elif nvi==4: # OFF is a surface format: 4 vertices is a quad (as written by export_off), not a tetrahedron
+            face = [int(u) for u in simplex[1:nvi+1]]
+            output.faces.append(face)
+            output.face_corners += [(x,i_f) for x in face]
+            i_f += 1
     return output
 
 def export_off(mesh, path):
